@@ -30,10 +30,10 @@ import dns.zonefile
 ORIGIN_LABELS = ["example"]
 ORIGIN = dns.name.from_text("example.")
 ZCLASSES = {"plain": dns.zone.Zone, "versioned": dns.versioned.Zone, "btree": dns.btreezone.Zone}
-TYPENUM = {"A": 1, "NS": 2, "CNAME": 5, "SOA": 6, "MX": 15, "TXT": 16, "KEY": 25, "RRSIG": 46, "NSEC": 47, "DNSKEY": 48,
+TYPENUM = {"A": 1, "NS": 2, "CNAME": 5, "SOA": 6, "MX": 15, "TXT": 16, "SIG": 24, "KEY": 25, "RRSIG": 46, "NSEC": 47, "DNSKEY": 48,
            "TYPE65280": 65280}
 NUMTYPE = {v: k for k, v in TYPENUM.items()}
-MNEMONIC = {1: "A", 2: "NS", 5: "CNAME", 6: "SOA", 15: "MX", 16: "TXT", 25: "KEY", 46: "RRSIG", 47: "NSEC", 48: "DNSKEY"}
+MNEMONIC = {1: "A", 2: "NS", 5: "CNAME", 6: "SOA", 15: "MX", 16: "TXT", 24: "SIG", 25: "KEY", 46: "RRSIG", 47: "NSEC", 48: "DNSKEY"}
 TFMT = "%Y%m%d%H%M%S"
 
 
@@ -128,7 +128,7 @@ def wire_of(ty, absnames, data):
         return bytes(data)
     if ty in ("DNSKEY", "KEY"):
         return data[0].to_bytes(2, "big") + bytes(data[1:])
-    if ty == "RRSIG":
+    if ty in ("RRSIG", "SIG"):
         return (data[0].to_bytes(2, "big") + bytes(data[1:3]) + b"".join(x.to_bytes(4, "big") for x in data[3:6])
                 + data[6].to_bytes(2, "big") + wire_name(absnames[0]) + bytes(data[7:]))
     if ty in ("NS", "CNAME"):
@@ -167,7 +167,7 @@ def rdata_tokens(ln, chunk=0):
     if ty in ("DNSKEY", "KEY"):
         k = b64(data[3:])
         return [str(data[0]), str(data[1]), str(data[2])] + ([k[:4], k[4:]] if len(k) > 4 else [k])
-    if ty == "RRSIG":
+    if ty in ("RRSIG", "SIG"):
         sg = b64(data[7:])
         return ([MNEMONIC[data[0]], str(data[1]), str(data[2]), str(data[3]), time.strftime(TFMT, time.gmtime(data[4])),
                  time.strftime(TFMT, time.gmtime(data[5])), str(data[6]), nm[0]] + ([sg[:8], sg[8:]] if len(sg) > 8 else [sg]))
@@ -280,8 +280,8 @@ def emb_labels(name, relativize, origin):
 def project_rdata(rd, relativize, origin=ORIGIN):
     t = int(rd.rdtype)
     ty = NUMTYPE.get(t, "TYPE%d" % t)
-    if ty == "RRSIG" and not isinstance(rd, dns.rdata.GenericRdata):
-        return "RRSIG/" + MNEMONIC.get(int(rd.type_covered), "TYPE%d" % rd.type_covered), [
+    if ty in ("RRSIG", "SIG") and not isinstance(rd, dns.rdata.GenericRdata):
+        return ty + "/" + MNEMONIC.get(int(rd.type_covered), "TYPE%d" % rd.type_covered), [
             [emb_labels(rd.signer, relativize, origin)],
             [int(rd.type_covered), int(rd.algorithm), int(rd.labels), int(rd.original_ttl), int(rd.expiration),
              int(rd.inception), int(rd.key_tag)] + list(rd.signature)]
@@ -320,7 +320,8 @@ def project_items(items, relativize, origin=ORIGIN):
         own = owner_labels(name, relativize, origin)
         for rd in rds:          # an empty rdataset holds no record: it is not content
             ty, val = project_rdata(rd, relativize, origin)
-            if rds.covers != dns.rdatatype.NONE and ty != "RRSIG/" + MNEMONIC.get(int(rds.covers), "?"):
+            want = TYPENUM.get(ty.split("/")[1], -1) if "/" in ty and "!" not in ty else int(dns.rdatatype.NONE)
+            if int(rds.covers) != want:
                 ty += "!covers"          # rdataset filed under another covered type than its rdata says
             out.append([own, ty, int(rds.ttl), val])
     out.sort(key=repr)
@@ -590,7 +591,7 @@ def unwire(ty, w):
         return [], list(w)
     if ty in ("DNSKEY", "KEY"):
         return [], [int.from_bytes(w[:2], "big")] + list(w[2:])
-    if ty == "RRSIG":
+    if ty in ("RRSIG", "SIG"):
         n, i = unwire_name(w, 18)
         return [["abs", n]], ([int.from_bytes(w[:2], "big"), w[2], w[3]] + [int.from_bytes(w[4 + 4 * k:8 + 4 * k], "big") for k in range(3)]
                               + [int.from_bytes(w[16:18], "big")] + list(w[i:]))
@@ -657,7 +658,7 @@ def lex_rdata(ty, toks):
         return False, [lex_ref(vals[0])], [inv[t.decode()] for t in vals[1:]]
     if ty in ("DNSKEY", "KEY"):
         return False, [], [int(vals[0]), int(vals[1]), int(vals[2])] + list(base64.b64decode(b"".join(vals[3:])))
-    if ty == "RRSIG":
+    if ty in ("RRSIG", "SIG"):
         tm = lambda x: calendar.timegm(time.strptime(x.decode(), TFMT))  # noqa: E731
         return False, [lex_ref(vals[7])], ([inv[vals[0].decode()], int(vals[1]), int(vals[2]), int(vals[3]), tm(vals[4]), tm(vals[5]),
                                             int(vals[6])] + list(base64.b64decode(b"".join(vals[8:]))))
@@ -710,8 +711,8 @@ def lex_line(line):
             raise LexError("type " + s)
         ty, tg = s, False
     gen, names, data = lex_rdata(ty, toks[i + 1:])
-    if ty == "RRSIG":
-        ty = "RRSIG/" + MNEMONIC.get(data[0], "TYPE%d" % data[0])
+    if ty in ("RRSIG", "SIG"):
+        ty = ty + "/" + MNEMONIC.get(data[0], "TYPE%d" % data[0])
     return {"k": "rr", "owner": owner, "ttl": ttl, "cls": cls, "ord": ordr, "ty": ty, "tg": tg, "gen": gen,
             "names": names, "data": data, "lay": "single"}, comment
 
